@@ -788,15 +788,31 @@ func (b *brun) mainTask() {
 			return
 		}
 	}
-	// implementations still running (their callers cancelled and went away) finish first
-	s.Block("B-impls-done", func() bool {
+	// Calls whose callers cancelled and went away may still be on the wire, about to start or
+	// running (and may make nested calls of their own): let everything settle first.
+	for quiet := 0; quiet < 3 && !s.Failed(); {
+		s.Block("B-impls-done", func() bool {
+			for _, c := range b.calls {
+				if c.starts > 0 && !c.implDone {
+					return false
+				}
+			}
+			return true
+		})
+		n := len(b.calls)
+		s.Sleep(100 * time.Millisecond)
+		idle := len(b.pipe[0]) == 0 && len(b.pipe[1]) == 0 && n == len(b.calls)
 		for _, c := range b.calls {
 			if c.starts > 0 && !c.implDone {
-				return false
+				idle = false
 			}
 		}
-		return true
-	})
+		if idle {
+			quiet++
+		} else {
+			quiet = 0
+		}
+	}
 	if s.Failed() {
 		return
 	}
@@ -882,14 +898,29 @@ func (b *brun) mainTask() {
 // closed, every capability is released exactly once and nothing is left running or locked.
 func (b *brun) finishFaulty() {
 	s := b.s
-	s.Block("B-impls-done", func() bool {
+	for quiet := 0; quiet < 3 && !s.Failed(); {
+		s.Block("B-impls-done", func() bool {
+			for _, c := range b.calls {
+				if c.starts > 0 && !c.implDone {
+					return false
+				}
+			}
+			return true
+		})
+		n := len(b.calls)
+		s.Sleep(100 * time.Millisecond)
+		idle := n == len(b.calls)
 		for _, c := range b.calls {
 			if c.starts > 0 && !c.implDone {
-				return false
+				idle = false
 			}
 		}
-		return true
-	})
+		if idle {
+			quiet++
+		} else {
+			quiet = 0
+		}
+	}
 	if s.Failed() {
 		return
 	}
